@@ -6,6 +6,7 @@
 //     all rows of all tables of the case (SELECT a.id, b.id, a.x = b.x FROM ta a, tb b),
 //   - a `matrix` event (the trace module checks the matrix there),
 //   - one `op` event per hashing operator: the groups / rows / pairs the operator produced, over ids.
+//
 // The driver decides nothing: it only executes SQL and re-encodes results.  `-mode exec` runs cases
 // given in a file (TLC-enumerated cases of spec/MC_Eq.tla = binding A; witnesses of known findings).
 package main
@@ -38,16 +39,7 @@ func main() {
 		vio.Fatal("%v", err)
 	}
 	r := &runner{w: w, rep: &vio.Report{Extra: map[string]interface{}{}}, opKinds: map[string]int{}, plans: map[string]int{}, fams: map[string]int{}}
-	switch *mode {
-	case "gen":
-		for i := 1; i <= *n; i++ {
-			if only.skip(i) {
-				continue
-			}
-			c := genCase(*seed, i)
-			r.runCase(c)
-		}
-	case "exec":
+	execFile := func() {
 		err := vio.ReadNDJSON(*in, func(i int, line []byte) error {
 			var c Case
 			if err := json.Unmarshal(line, &c); err != nil {
@@ -62,6 +54,21 @@ func main() {
 		if err != nil {
 			vio.Fatal("%v", err)
 		}
+	}
+	switch *mode {
+	case "gen":
+		if *in != "" { // given cases first (witnesses, TLC-enumerated cases), then the generated ones
+			execFile()
+		}
+		for i := 1; i <= *n; i++ {
+			if only.skip(i) {
+				continue
+			}
+			c := genCase(*seed, i)
+			r.runCase(c)
+		}
+	case "exec":
+		execFile()
 	default:
 		vio.Fatal("unknown mode %s", *mode)
 	}
